@@ -4,6 +4,8 @@ CFG = dict(
         coq="Properties/C19.v",
         areas=["options", "lzmaenc", "c02"],
     # c02 belongs to C02; here: a container writer that reported success wrote something its own reader returns
+    # the shared workloads run in the release profile only (their own properties run them in theirs)
+    area_profiles={"lzmaenc": ["release"], "c02": ["release"]},
     oracle_filter={"c02": r"own reader does not return|writer panicked|writer returned error|valid file rejected|valid file decoded to different"},
         profiles=["release", "checked"],
         level="proof",
